@@ -3931,6 +3931,10 @@ static Token *function(Token *tok, Type *basety, VarAttr *attr) {
     return tok;
   }
 
+  // Nested functions are not supported.
+  if (current_fn)
+    error_tok(tok, "function definition is not allowed here");
+
   current_fn = fn;
   locals = NULL;
 
